@@ -110,13 +110,10 @@ def sim_struct(ctx):
     repo = ctx.repo
     f = repo.function('sim.generate_imu')
     res = lambda n: f.module.resolve(n, f.local_names())
-    inc = None
-    for n in ast.walk(f.node):
-        if isinstance(n, ast.If) and isinstance(n.test, ast.Compare) and \
-                isinstance(n.test.comparators[0], ast.Constant) and \
-                n.test.comparators[0].value == 'increment':
-            inc = n
-    ctx.need(inc is not None, "generate_imu: 'increment' branch not found")
+    from ..flow import const_arms
+    arm = const_arms(f.node, ('increment',)).get('increment')
+    ctx.need(arm, "generate_imu: 'increment' branch not found")
+    inc = ast.If(test=ast.Constant(True), body=arm, orelse=[])
     calls = [n for n in ast.walk(inc) if isinstance(n, ast.Call) and
              res(n.func) == 'pyins.sim._compute_increment_readings']
     ctx.need(len(calls) == 1 and len(calls[0].args) == 6, 'call of _compute_increment_readings '
